@@ -293,8 +293,8 @@ def inject_reserved(rng, t, shape):
 class JsonGen:
   """Arbitrary / malformed JSON for `from_json` (JV wire)."""
 
-  def __init__(self, rng, str_form=False):
-    self.rng, self.str_form = rng, str_form
+  def __init__(self, rng, str_form=False, unknown_bias=False):
+    self.rng, self.str_form, self.unknown_bias = rng, str_form, unknown_bias
 
   def leaf(self):
     r = self.rng
@@ -342,7 +342,7 @@ class JsonGen:
               ['z', self.value(depth - 1)]],
     }[cls]
     kvs = [[TYPE_KEY, MOD + cls]] + good
-    m = r.below(14)
+    m = 0 if (self.unknown_bias and r.chance(0.45)) else r.below(14)
     if m == 0:                                   # unknown class
       kvs[0][1] = r.choice(['nope.Nope', 'harness.c05_classes.Nope', 'P'])
     elif m == 1:                                 # _type not a string
@@ -397,7 +397,19 @@ def gen_store_case(rng, rich_records=False):
     if written and rng.chance(0.5):
       p = rng.choice(written)       # bias towards reading / rewriting what exists
     if p in seq_paths:
-      k = rng.weighted([(4, 'seqw_a'), (2, 'seqw_w'), (4, 'seqr'), (1, 'exists')])
+      k = rng.weighted([(4, 'seqw_a'), (2, 'seqw_w'), (4, 'seqr'), (1, 'exists'), (4, 'jw_a'), (2, 'jw_w'), (4, 'jr'),
+                        (1, 'partial')])
+      if k.startswith('jw'):
+        ops.append({'k': 'jw', 'p': p, 'm': k[-1], 'v': [tg.tree(rng.below(3)) for _ in range(rng.below(4))]})
+        written.append(p)
+        continue
+      if k == 'jr':
+        ops.append({'k': 'jr', 'p': p})
+        continue
+      if k == 'partial':
+        # a writer that died in the middle of a line: the file does not end in a newline
+        ops.append({'k': 'write', 'p': p, 'c': rng.choice(['[1, 2', '{"a": 1}', '12', '"abc']), 'm': 'a'})
+        continue
       if k.startswith('seqw'):
         pool = ['r1', 'rec two', '', '{"a": 1}', 'é\U0001F600', ' lead', 'trail ', '\t', 'x\ry']
         if rich_records:
@@ -480,6 +492,94 @@ def gen_hstore_case(rng):
         ops.append({'k': 'hclose', 'h': h[0]})
         live.remove(h)
   return {'kind': 'hstore', 'ops': ops}
+
+
+def gen_nest(rng, depth, top=True):
+  """Nested DNA values as `DNA(...)` accepts them (and a few it rejects)."""
+  def leaf():
+    k = rng.below(10)
+    if k <= 5:
+      return rng.below(6)
+    if k <= 7:
+      return {'q': rng.choice([[1, 2], [-3, 4], [5, 1], [1, 1024], [0, 1], [7, 8]])}
+    if k == 8:
+      return rng.choice(['abc', 'x y', '', '__tuple__', 'é'])
+    # `None` (the empty DNA) only as the whole value: as a child it is outside the domain on which
+    # the constructor model (C12 `parse`) is validated — the constructor drops / keeps such a
+    # child depending on context (F201 is the replayed example)
+    return None if top else 0
+  if depth <= 0:
+    return leaf()
+  k = rng.weighted([(3, 'leaf'), (3, 'list'), (4, 'tuple'), (1, 'bad')])
+  if k == 'leaf':
+    return leaf()
+  if k == 'list':
+    return {'l': [gen_nest(rng, depth - 1, False) for _ in range(rng.below(4))]}
+  if k == 'tuple':
+    head = rng.below(5) if rng.chance(0.9) else {'q': [1, 2]}
+    tail = rng.weighted([(3, 'scalar'), (3, 'list'), (3, 'chain')])
+    if tail == 'scalar':
+      return {'t': [head, leaf()]}
+    if tail == 'list':
+      return {'t': [head, {'l': [gen_nest(rng, depth - 1, False) for _ in range(rng.randint(1, 3))]}]}
+    return {'t': [head] + [rng.below(4) for _ in range(rng.randint(1, 3))] +
+                 ([{'l': [gen_nest(rng, depth - 1, False) for _ in range(2)]}] if rng.chance(0.4) else [])}
+  return rng.choice([{'t': [1]}, {'t': []}, {'t': ['s', 1]}, {'t': [None, 1]}, {'l': [{'t': [1]}]}])
+
+
+def gen_dna_case(rng):
+  tg = TreeGen(rng, floats=False, objects=False)
+  meta = None
+  if rng.chance(0.4):
+    kvs, seen = [], set()
+    for _ in range(rng.randint(1, 3)):
+      k = rng.choice(['a', 'b', 'reward', 'k1', 'x y'])
+      if k not in seen:
+        seen.add(k)
+        kvs.append([k, tg.tree(rng.below(3))])
+    meta = {'d': kvs}
+  cloneable = [meta['d'][0][0]] if meta and rng.chance(0.3) else []
+  return {'kind': 'dna', 'nest': gen_nest(rng, rng.randint(0, 3)), 'meta': meta, 'cloneable': cloneable,
+          'child_meta': rng.chance(0.08)}
+
+
+def lower_ops(ops):
+  """jsonl operations as the sequence operations they are: `jw` adds `to_json_str(v)` records,
+  `jr` reads the lines (the values are `from_json_str` of them)."""
+  out = []
+  for op in ops:
+    if op['k'] == 'jw':
+      out.append({'k': 'seqw', 'p': op['p'], 'm': op['m'], 'r': [json_text_of_tree(v) for v in op['v']]})
+    elif op['k'] == 'jr':
+      out.append({'k': 'seqr', 'p': op['p']})
+    else:
+      out.append(op)
+  return out
+
+
+def stale_mask(ops):
+  """For a handle history: True at the positions whose output depends on a stale handle (one
+  opened before a later 'w' of the same path) — reads through it, and everything read from a path
+  after a write through a stale handle until the path is overwritten again."""
+  gen, tainted, handles, mask = {}, set(), [], []
+  for op in ops:
+    k = op['k']
+    if k in ('hread', 'hreadline', 'hwrite', 'hclose'):
+      h = handles[op['h']] if op['h'] < len(handles) else None
+      stale = h is not None and gen.get(h[0], 0) != h[1]
+      if k == 'hwrite' and stale:
+        tainted.add(h[0])
+      mask.append(bool(h is not None and k != 'hclose' and (stale or h[0] in tainted)))
+      continue
+    key = norm_path(op['p'])
+    rewrites = k == 'save' or (k in ('seqw', 'write', 'hopen') and op.get('m') == 'w')
+    if rewrites:
+      gen[key] = gen.get(key, 0) + 1
+      tainted.discard(key)
+    if k == 'hopen':
+      handles.append((key, gen.get(key, 0)))
+    mask.append(k in ('load', 'seqr') and key in tainted)
+  return mask
 
 
 def gen_messy_store_case(rng):
@@ -830,6 +930,17 @@ class _Impl:
     model['json_str'] = self.jv_wire(json.loads(s))
     loaded_s = self.attempt(lambda: pg.from_json_str(s, allow_partial=ap))
     model['rt_str'] = {'ok': self.to_wire(loaded_s['ok'])} if 'ok' in loaded_s else loaded_s
+    if case.get('opts'):
+      kw = case['opts']
+      jo = self.attempt(lambda: pg.to_json(v, **kw))
+      lo = self.attempt(lambda: pg.from_json(pg.to_json(v, **kw), allow_partial=ap))
+      so = self.attempt(lambda: pg.from_json_str(pg.to_json_str(v, json_indent=2, **kw), allow_partial=ap))
+      out['opts_model'] = {'json': self.jv_wire(jo['ok']) if 'ok' in jo else jo,
+                           'rt': {'ok': self.to_wire(lo['ok'])} if 'ok' in lo else lo}
+      out['opts_checks'] = {}
+      for name, res in (('opts-obj', lo), ('opts-str', so)):
+        out['opts_checks'][name] = (['raises %s' % res['err']] if 'err' in res
+                                    else self.same(v, res['ok'], self.has_nan(t)))
     out['model'] = model
     nan = self.has_nan(t)
     checks = {}
@@ -859,7 +970,8 @@ class _Impl:
     pg = self.pg
     ap = case['ap']
     if case['kind'] == 'load':
-      res = self.attempt(lambda: pg.from_json(self.jv_build(case['json']), allow_partial=ap))
+      ad = bool(case.get('auto_dict'))
+      res = self.attempt(lambda: pg.from_json(self.jv_build(case['json']), allow_partial=ap, auto_dict=ad))
     else:
       text = json.dumps(self.jv_build(case['json']))
       res = self.attempt(lambda: pg.from_json_str(text, allow_partial=ap))
@@ -942,6 +1054,19 @@ class _Impl:
         elif k == 'seqr':
           with pg_io.open_sequence(p, 'r') as f:
             outs.append({'r': list(iter(f))})
+        elif k == 'jw':
+          with pg.open_jsonl(p, op['m']) as f:
+            for v in op['v']:
+              f.add(self.build(v))
+          outs.append(None)
+        elif k == 'jr':
+          with pg_io.open_sequence(p, 'r') as f:
+            raw = list(iter(f))
+
+          def read_values():
+            with pg.open_jsonl(p, 'r') as g:
+              return [self.to_wire(x) for x in iter(g)]
+          outs.append({'r': raw, 'v': self.attempt(read_values)})
         elif k == 'exists':
           outs.append(bool(pg_io.path_exists(p)))
         elif k == 'listdir':
@@ -963,7 +1088,9 @@ class _Impl:
     outs = self.run_ops(case['ops'], '/mem')
     model = []
     for o in outs:
-      if isinstance(o, dict) and 'v' in o:
+      if isinstance(o, dict) and 'v' in o and 'r' in o:
+        model.append({'r': o['r']})
+      elif isinstance(o, dict) and 'v' in o:
         model.append({'c': o['c']})
       else:
         model.append(o)
@@ -974,6 +1101,100 @@ class _Impl:
       out['std'] = [sorted(o['n']) if isinstance(o, dict) and 'n' in o else o for o in std]
     self.reset_mem()
     return out
+
+  # -- DNA ---------------------------------------------------------------------------------------
+  def py_nest(self, n):
+    if isinstance(n, dict):
+      if 'q' in n:
+        return n['q'][0] / n['q'][1]
+      if 'l' in n:
+        return [self.py_nest(x) for x in n['l']]
+      return tuple(self.py_nest(x) for x in n['t'])
+    return n
+
+  def nest_wire(self, v):
+    if isinstance(v, float):
+      a, b = v.as_integer_ratio()
+      return {'q': [a, b]}
+    if isinstance(v, tuple):
+      return {'t': [self.nest_wire(x) for x in v]}
+    if isinstance(v, list):
+      return {'l': [self.nest_wire(x) for x in v]}
+    return v
+
+  def ratio_tok(self, f):
+    a, b = f.as_integer_ratio()
+    return '%d/%d' % (a, b)
+
+  def dna(self, case):
+    pg = self.pg
+    try:
+      d = pg.DNA(self.py_nest(case['nest']))
+    except ValueError:
+      return {'model': {'parse': 'ValueError'}}
+    if case['meta']:
+      for k, v in case['meta']['d']:
+        d.set_metadata(k, self.build(v), cloneable=k in case['cloneable'])
+    noncloneable = bool(case['meta']) and any(k not in case['cloneable'] for k, _ in case['meta']['d'])
+    child = False
+    if case['child_meta'] and d.children:
+      d.children[0].set_metadata('note', 5)
+      child = True
+      noncloneable = True
+    hexftok, self.ftok = self.ftok, self.ratio_tok
+    try:
+      model = {'json': self.jv_wire(pg.to_json(d))}
+      loaded = self.attempt(lambda: pg.from_json(pg.to_json(d)))
+      if 'ok' in loaded:
+        r = loaded['ok']
+        model['rt'] = {'ok': {'nest': self.nest_wire(r.to_json(compact=True, type_info=False)),
+                              'meta': self.to_wire(r.metadata),
+                              'cloneable': sorted(r._cloneable_metadata_keys)}}   # pylint: disable=protected-access
+      else:
+        model['rt'] = loaded
+    finally:
+      self.ftok = hexftok
+    checks = {}
+    for form, f in (('obj', lambda: pg.from_json(pg.to_json(d))),
+                    ('str', lambda: pg.from_json_str(pg.to_json_str(d))),
+                    ('str-indent', lambda: pg.from_json_str(pg.to_json_str(d, json_indent=2))),
+                    ('pickle', lambda: self.pickle.loads(self.pickle.dumps(d))),
+                    ('deepcopy', lambda: self.copy.deepcopy(d))):
+      res = self.attempt(f)
+      if 'err' in res:
+        checks[form] = ['raises %s' % res['err']]
+      else:
+        r = res['ok']
+        diffs = []
+        if type(r) is not type(d):
+          diffs.append('type')
+        same = self.attempt(lambda: r == d)
+        if not same.get('ok'):
+          diffs.append('==')
+        if form == 'deepcopy' and noncloneable:
+          # metadata set with cloneable=False is dropped by clone / deepcopy by design
+          pass
+        else:
+          if not pg.eq(r, d):
+            diffs.append('pg.eq')
+          if pg.hash(r) != pg.hash(d):
+            diffs.append('pg.hash')
+          if not pg.eq(r.metadata, d.metadata):
+            diffs.append('root metadata')
+        checks[form] = diffs
+    def normal(n, is_child=False):
+      v, cs = n.value, n.children
+      if is_child and v is None and not cs:
+        return False
+      if v is None and len(cs) == 1:
+        return False
+      if len(cs) == 1 and cs[0].value is None:
+        return False
+      if cs and v is not None and not isinstance(v, (int, float)):
+        return False
+      return all(normal(c, True) for c in cs)
+    return {'model': model, 'checks': checks, 'child_meta': child, 'normal': normal(d),
+            'reserved': reserved_shapes(self.to_wire(d.to_json(compact=True, type_info=False)), False)}
 
   # -- specs, schemas, geno, DNA, functions ----------------------------------------------------
   def build_spec(self, s):
@@ -1009,12 +1230,19 @@ class _Impl:
 
   def build_geno(self, g):
     pg = self.pg
+    # names and hints: derived from the shape, so about half of the decision points carry them
+    extra = {}
+    if len(json.dumps(g)) % 2:
+      self._names = getattr(self, '_names', 0) + 1
+      extra['name'] = 'n%d' % self._names        # decision-point names must be unique
+    if len(json.dumps(g)) % 3 == 0:
+      extra['hints'] = {'k': len(g), 't': (1, 'x')}
     if g[0] == 'floatv':
-      return pg.floatv(g[1], g[2])
+      return pg.floatv(g[1], g[2], **extra)
     if g[0] == 'oneof':
-      return pg.oneof([self.build_geno(c) if isinstance(c, list) else c for c in g[1]])
+      return pg.oneof([self.build_geno(c) if isinstance(c, list) else c for c in g[1]], **extra)
     if g[0] == 'manyof':
-      return pg.manyof(g[1], g[2], distinct=g[3], sorted=g[4])
+      return pg.manyof(g[1], g[2], distinct=g[3], sorted=g[4], **extra)
     return pg.Dict({'k%d' % i: self.build_geno(c) for i, c in enumerate(g[1])})
 
   def spec(self, case):
@@ -1051,6 +1279,7 @@ class _Impl:
       cls = self.classes[case['expr']]
       rt('schema', cls.__schema__, lambda a, b: a == b)
     elif what == 'geno':
+      self._names = 0
       hyper = pg.Dict(x=self.build_geno(case['expr']))
       spec = pg.dna_spec(hyper)
       rt('dna spec', spec, pg.eq)
@@ -1103,6 +1332,15 @@ class _Impl:
           problems.append('%s-value: value differs after the round trip: %s' % (tag, d[0]))
         elif self.probe(v) != self.probe(res['ok']):
           problems.append('%s-spec-lost: schema-backed behaviour differs (value_spec not serialised)' % tag)
+    elif what == 'misc':
+      P, Q = self.classes['P'], self.classes['Q']
+      diff = pg.diff(Q(a=P(1, 'a'), n=3), Q(a=P(2, 'a'), n=None))
+      rt('diff', diff, pg.eq)
+      rt('opaque set (pickle fallback)', pg.Dict(s={1, 2, 'x'}), lambda a, b: a.s == b.s)
+      ref = self.attempt(lambda: pg.to_json(pg.Dict(a=pg.Ref(P(1)))))
+      if ref != {'err': 'TypeError'}:
+        problems.append('pg.Ref is documented as not serialisable (TypeError), got %s' % (ref,))
+      rt('keypath', pg.Dict(p=pg.KeyPath.parse('a.b[0]')), lambda a, b: a.p == b.p)
     elif what == 'func':
       for name, v in (('class', self.classes[case['expr']]), ('function', self.mod.module_function),
                       ('builtin', len), ('type', int), ('method', self.classes['P'].make)):
@@ -1149,7 +1387,12 @@ class C05(Prop):
       '(_internal_path, _locate, mkdirs, open w/a, read), LineSequence; tied by correspondence',
       'stand-alone typed containers: modelled for const-key Dict / List with the field kinds above '
       '(sym_jsonify schema branch, schema-backed writes), tied by 4 fixed correspondence cases',
+      'pg.DNA: compact JSON + root metadata + cloneable keys modelled on top of the C12 parse model (floats '
+      'as exact ratios; the ratio <-> token map is the trusted float text layer); to_json options '
+      'hide_frozen / hide_default_values and auto_dict modelled; jsonl = LineSequence + to_json_str',
       'outside the model (oracle only): typed containers with rich specs, Tuple/Enum/Float/Union fields, '
+      'hyper primitives / DNASpec / Diff / functor objects (registered pg.Object classes with rich field '
+      'specs), pg.KeyPath, the pickle fallback (sets), auto_import, non-compact DNA form, '
       'value specs (argument-record level only: T-SIG table + C05_sig_roundtrip), schemas, geno specs, DNA, '
       'functions / classes by name, MemorySequence (.mem), opaque-object fallback (pickle in base64)',
   ]
@@ -1180,11 +1423,18 @@ class C05(Prop):
       if rng.chance(0.12):
         shape = rng.choice(['empty-tuple', 'tuple-marker-list', 'type-key-str', 'type-key-int', 'int-key-prefix'])
         t = inject_reserved(rng, t, shape)
-      yield {'kind': 'codec', 'value': t, 'ap': tree_has(t, lambda x: isinstance(x, dict) and 'm' in x) or rng.chance(0.3)}
+      case = {'kind': 'codec', 'value': t, 'ap': tree_has(t, lambda x: isinstance(x, dict) and 'm' in x) or rng.chance(0.3)}
+      if rng.chance(0.3):
+        case['opts'] = {'hide_frozen': rng.chance(0.5), 'hide_default_values': rng.chance(0.7)}
+      yield case
     for i in range(n_load):
       sf = rng.chance(0.4)
-      jg = JsonGen(rng, str_form=sf)
-      yield {'kind': 'load_str' if sf else 'load', 'json': jg.value(rng.randint(0, 3)), 'ap': rng.chance(0.4)}
+      ad = (not sf) and rng.chance(0.35)
+      jg = JsonGen(rng, str_form=sf, unknown_bias=ad)
+      case = {'kind': 'load_str' if sf else 'load', 'json': jg.value(rng.randint(0, 3)), 'ap': rng.chance(0.4)}
+      if ad:
+        case['auto_dict'] = True
+      yield case
     for i in range(n_store):
       if rng.chance(0.2):
         yield gen_messy_store_case(rng)
@@ -1192,10 +1442,12 @@ class C05(Prop):
         yield gen_store_case(rng, rich_records=rng.chance(0.1))
     for i in range(300 if quick else 15000):
       yield gen_hstore_case(rng)
+    for i in range(300 if quick else 10000):
+      yield gen_dna_case(rng)
     if not quick:
       yield from self.exhaustive_paths()
     for i in range(n_spec):
-      k = rng.weighted([(6, 'spec'), (1, 'schema'), (3, 'geno'), (1, 'func'), (1, 'typed')])
+      k = rng.weighted([(6, 'spec'), (1, 'schema'), (3, 'geno'), (1, 'func'), (1, 'typed'), (1, 'misc')])
       if k == 'spec':
         yield {'kind': 'spec', 'what': 'spec', 'expr': gen_spec(rng, rng.randint(0, 3))}
       elif k == 'geno':
@@ -1242,6 +1494,8 @@ class C05(Prop):
       return im.store(case)
     if k == 'spec':
       return im.spec(case)
+    if k == 'dna':
+      return im.dna(case)
     raise AssertionError(k)
 
   def model_request(self, case):
@@ -1249,17 +1503,26 @@ class C05(Prop):
     if k == 'codec':
       if not is_model_tree(case['value']):
         return None
-      return {'op': 'codec', 'env': ENV, 'value': case['value'], 'ap': case['ap']}
+      req = {'op': 'codec', 'env': ENV, 'value': case['value'], 'ap': case['ap']}
+      if case.get('opts'):
+        req['hide_frozen'] = case['opts']['hide_frozen']
+        req['hide_default_values'] = case['opts']['hide_default_values']
+      return req
     if k in ('load', 'load_str'):
-      return {'op': k, 'env': ENV, 'json': case['json'], 'ap': case['ap']}
+      req = {'op': k, 'env': ENV, 'json': case['json'], 'ap': case['ap']}
+      if case.get('auto_dict'):
+        req['auto_dict'] = True
+      return req
     if k == 'store':
       ops = []
-      for op in case['ops']:
+      for op in lower_ops(case['ops']):
         if op['k'] == 'save':
           ops.append({'k': 'save', 'p': op['p'], 'c': json_text_of_tree(op['v'])})
         else:
           ops.append(op)
       return {'op': 'store', 'cfg': 'patched', 'ops': ops}
+    if k == 'dna':
+      return {'op': 'dna', 'nest': case['nest'], 'meta': case['meta'], 'cloneable': case['cloneable']}
     if k == 'hstore':
       ops = []
       for op in case['ops']:
@@ -1293,17 +1556,32 @@ class C05(Prop):
         return 'Encodable true (Lean) and reserved_shapes (harness) disagree'
       if not model_out['conforms']:
         return 'the library built a value the model calls non-conforming'
+      if case.get('opts'):
+        a, b = impl_out['opts_model'], model_out.get('opts')
+        if a != b:
+          return 'options %s: impl=%s model=%s' % (case['opts'], json.dumps(a)[:300], json.dumps(b)[:300])
       return None
     if k in ('load', 'load_str'):
       a, b = impl_out['model']['rt'], model_out['rt']
       return None if a == b else 'impl=%s model=%s' % (json.dumps(a)[:300], json.dumps(b)[:300])
     if k in ('store', 'hstore'):
       a, b = impl_out['model']['outs'], model_out['outs']
+      if k == 'hstore':
+        # Public-API projection: what a handle that predates a later 'w' of its path reads, and
+        # what the path holds after a write through such a stale handle, is not fixed by the
+        # property (POSIX keeps the inode, this file system may keep or replace the buffer):
+        # those positions are not compared.
+        mask = stale_mask(case['ops'])
+        a = [None if m else x for x, m in zip(a, mask)]
+        b = [None if m else x for x, m in zip(b, mask)]
       if a != b:
         for i, (x, y) in enumerate(zip(a, b)):
           if x != y:
             return 'op %d %s: impl=%s model=%s' % (i, json.dumps(case['ops'][i])[:120], json.dumps(x)[:200], json.dumps(y)[:200])
       return None
+    if k == 'dna':
+      a, b = impl_out['model'], model_out
+      return None if a == b else 'dna: impl=%s model=%s' % (json.dumps(a)[:400], json.dumps(b)[:400])
     if k == 'spec' and case['what'] == 'typed':
       a, b = impl_out['typed_model'], model_out
       return None if a == b else 'typed container: impl=%s model=%s' % (json.dumps(a)[:300], json.dumps(b)[:300])
@@ -1327,6 +1605,11 @@ class C05(Prop):
         return None
       if 'to_json_error' in out:
         return {'signature': 'to_json-raises:' + out['to_json_error'], 'what': 'to_json raises on %s' % json.dumps(case['value'])[:300]}
+      for form, d in sorted((out.get('opts_checks') or {}).items()):
+        if d:
+          shapes = sorted(set(reserved_shapes(case['value'], form == 'opts-str')))
+          sig = 'roundtrip:' + ('+'.join(shapes) if shapes else form + ':' + d[0].split(':')[0])
+          return {'signature': sig, 'what': '%s %s round trip of %s: %s' % (form, case['opts'], json.dumps(case['value'])[:300], '; '.join(d))}
       for form in ('obj', 'str', 'pickle', 'deepcopy'):
         d = out['checks'][form]
         if d:
@@ -1355,6 +1638,24 @@ class C05(Prop):
       return None
     if k == 'hstore':
       return self.hstore_oracle(case, out['outs'])
+    if k == 'dna':
+      if 'checks' not in out:
+        return None
+      for form in ('obj', 'str', 'str-indent', 'pickle', 'deepcopy'):
+        d = out['checks'][form]
+        if d:
+          if form in ('pickle', 'deepcopy'):
+            sig = 'dna:%s:%s' % (form, d[0])
+          elif out['reserved']:
+            sig = 'roundtrip:' + '+'.join(sorted(set(out['reserved'])))
+          elif not out['normal']:
+            sig = 'dna:not-in-normal-form'
+          elif out['child_meta'] and d[0] in ('pg.eq', 'pg.hash'):
+            sig = 'dna:child-metadata-dropped'
+          else:
+            sig = 'dna:%s:%s' % (form, d[0])
+          return {'signature': sig, 'what': 'DNA %s, %s round trip: %s' % (json.dumps(case['nest'])[:200], form, '; '.join(d))}
+      return None
     if k == 'spec':
       if out['problems']:
         p = out['problems'][0]
@@ -1366,9 +1667,15 @@ class C05(Prop):
     """Read-your-writes against the abstract store `path key -> content / records`."""
     files = {}
     dirs = {()}
-    for i, (op, o) in enumerate(zip(case['ops'], outs)):
+    jvals = {}        # key -> values appended through open_jsonl since the last 'w' (None: unknown)
+    for i, (orig, op, o) in enumerate(zip(case['ops'], lower_ops(case['ops']), outs)):
       k, key = op['k'], norm_path(op['p'])
       err = isinstance(o, dict) and o.get('err')
+      if orig['k'] == 'jw' and not err:
+        base = jvals.get(key) if orig['m'] == 'a' and key in files else []
+        jvals[key] = None if base is None else base + list(orig['v'])
+      elif k in ('save', 'write', 'seqw') and not err:
+        jvals[key] = None
       if k in ('save', 'seqw', 'mkdirs') and not err:
         upto = key if k == 'mkdirs' else key[:-1]
         for n in range(len(upto) + 1):
@@ -1418,6 +1725,9 @@ class C05(Prop):
             sig = 'store:record-with-newline' if bad_nl else ('store:record-with-cr-on-std-fs' if bad_cr else 'store:records-mismatch')
             return {'signature': sig,
                     'what': '[%s] op %d: records of %s are %s, appended %s' % (label, i, op['p'], json.dumps(o)[:200], json.dumps(prev[1])[:200])}
+          if orig['k'] == 'jr' and jvals.get(key) is not None and o['v'] != {'ok': jvals[key]}:
+            return {'signature': 'store:jsonl-values-mismatch',
+                    'what': '[%s] op %d: open_jsonl(%s) yields %s, added %s' % (label, i, op['p'], json.dumps(o['v'])[:200], json.dumps(jvals[key])[:200])}
       elif k == 'exists':
         if key in files and o is not True:
           return {'signature': 'store:exists-false', 'what': '[%s] op %d: %s written but exists() = %s' % (label, i, op['p'], o)}
@@ -1545,13 +1855,15 @@ class C05(Prop):
       return isinstance(case['value'], dict) and 'f' not in case['value'] and 'build_error' not in out
     if k in ('load', 'load_str'):
       return isinstance(case['json'], dict)
+    if k == 'dna':
+      return isinstance(case['nest'], dict) and 'q' not in case['nest']
     if k in ('store', 'hstore'):
       ops = case['ops']
       wrote = set()
       for op in ops:
-        if op['k'] in ('save', 'write', 'seqw'):
+        if op['k'] in ('save', 'write', 'seqw', 'jw'):
           wrote.add(norm_path(op['p']))
-        elif op['k'] in ('load', 'seqr') and norm_path(op['p']) in wrote:
+        elif op['k'] in ('load', 'seqr', 'jr') and norm_path(op['p']) in wrote:
           return True
       return False
     return case['what'] != 'spec' or case['expr'][0] in ('List', 'Tuple', 'Dict', 'Union')
@@ -1579,13 +1891,23 @@ class C05(Prop):
           h.append('codec:has-' + name)
       if not is_model_tree(t):
         h.append('codec:impl-only')
+      if case.get('opts'):
+        h.append('codec:opts:hide_frozen=%s,hide_default=%s' % (case['opts']['hide_frozen'], case['opts']['hide_default_values']))
       if 'model' in out:
         h.append('codec:rt=' + ('ok' if 'ok' in out['model']['rt'] else out['model']['rt']['err']))
         if not out.get('built_same'):
           h.append('codec:normalised-on-build')
     elif k in ('load', 'load_str'):
       rt = out['model']['rt']
-      h.append('%s:%s' % (k, 'ok' if 'ok' in rt else rt['err']))
+      h.append('%s%s:%s' % (k, '+auto_dict' if case.get('auto_dict') else '', 'ok' if 'ok' in rt else rt['err']))
+    elif k == 'dna':
+      m = out['model']
+      h.append('dna:' + ('rejected-by-constructor' if 'parse' in m else 'rt=' + ('ok' if 'ok' in m['rt'] else m['rt']['err'])))
+      if case['meta']:
+        h.append('dna:metadata')
+      if out.get('child_meta'):
+        h.append('dna:child-metadata')
+      h.append('dna:depth=%d' % tree_depth(case['nest']))
     elif k == 'hstore':
       h.append('hstore:handles=%d' % sum(1 for o in case['ops'] if o['k'] == 'hopen'))
       closed = {o['h'] for o in case['ops'] if o['k'] == 'hclose'}
